@@ -128,7 +128,7 @@ def run(chk: Check):
             if not ok:
                 chk.violation("driver:save_walkers", f"save_walkers: {len(saved)} snapshots for {sc['nblocks']} sampling blocks, or a snapshot "
                               f"differs from the population handed to the global reconfiguration", {"scenario": sc})
-        tr = proxies.to_trace(ev, nw, tid=k + 1)
+        tr = proxies.to_trace(ev, nw, tid=k + 1, options=opts)
         traces.append(tr)
         metas.append((sc, nw, dict(n_walkers=nw, neql=sc["eql"][0], nblocks=sc["nblocks"], steps=sc["block"][0],
                                    ene=sc["block"][1], sr=sc["block"][2], steps_eql=50, ene_eql=sc["eql"][1],
@@ -201,7 +201,7 @@ def run(chk: Check):
         rmeta[j + 1] = (R, wt, o, blk, inf)
         # every rank's own event stream must be a behaviour of the single-rank machine, coherence bits included
         for r in range(R):
-            tr = proxies.to_trace([e for e in ev if int(e.get("rank", 0)) == r], nw, tid=1)
+            tr = proxies.to_trace([e for e in ev if int(e.get("rank", 0)) == r], nw, tid=1, options=opts)
             if not tr:
                 continue
             v = runlevel.validate_traces(chk, [tr], dict(n_walkers=nw, neql=eql[0], nblocks=nbl, steps=blk[0], ene=blk[1], sr=blk[2],
